@@ -172,6 +172,10 @@ pub struct BrokerCfg {
     /// The broker's PUBREL comes in any of its legal forms: short, with the reason code 0x92 (packet identifier
     /// not found - what a broker says that lost track of the PUBREC'd message), or with an explicit property length.
     pub pubrel_forms: bool,
+    /// Successful acknowledgements come in any legal form (a choice per acknowledgement): shortest, explicit
+    /// reason code, explicit (empty) property block, with a Reason String and two User Properties;
+    /// SUBACK / UNSUBACK plain or with those properties.
+    pub ack_forms: bool,
     /// Further legal CONNACK properties the client has no use for (a choice per CONNACK; see `broker::connack_extras`):
     /// 0 none, 1 Session Expiry 0, 2 Session Expiry max, 3 capability flags all 0, 4 Topic Alias Maximum,
     /// 5 Reason String + repeated User Property, 6 Response Information + Server Reference.
@@ -208,6 +212,7 @@ impl Default for BrokerCfg {
             overrun: false,
             pubcomp_last: false,
             pubrel_forms: false,
+            ack_forms: false,
             connack_extras: vec![0],
             wrong_kind_acks: false,
             dup_pubrec_fail: false,
